@@ -15,3 +15,14 @@ void c05_down(int simd, int v2, unsigned image_width, unsigned width_in_blocks, 
   if (v2) { if (simd) jsimd_h2v2_downsample(&cc, &comp, in, o); else h2v2_downsample(&cc, &comp, in, o); }
   else    { if (simd) jsimd_h2v1_downsample(&cc, &comp, in, o); else h2v1_downsample(&cc, &comp, in, o); }
 }
+
+void c05_down_rows(int simd, int v2, unsigned image_width, unsigned width_in_blocks, int vs, u8 **in, u8 **out)
+{
+  static struct jpeg_compress_struct cc; static struct jpeg_comp_master master; static jpeg_component_info comp;
+  memset(&cc, 0, sizeof(cc)); memset(&master, 0, sizeof(master)); memset(&comp, 0, sizeof(comp));
+  cc.master = &master; master.lossless = FALSE;
+  cc.image_width = image_width; cc.max_v_samp_factor = v2 ? 2 * vs : vs;
+  comp.width_in_blocks = width_in_blocks; comp.v_samp_factor = vs;
+  if (v2) { if (simd) jsimd_h2v2_downsample(&cc, &comp, in, out); else h2v2_downsample(&cc, &comp, in, out); }
+  else    { if (simd) jsimd_h2v1_downsample(&cc, &comp, in, out); else h2v1_downsample(&cc, &comp, in, out); }
+}
